@@ -18,8 +18,6 @@ def get_db(ctx):
     return _DB_CACHE[k]
 
 def to_line(c):
-    if ctxdesc.has_unmodelled(c['ctx']):
-        return None
     return '\t'.join(['PARSE', 'T' if c['tol'] else 'F', ctxdesc.enc_ctx(c['ctx']), psdesc.enc_desc(c.get('ps', {})), wire(c['s'])])
 
 def err_what(e):
